@@ -594,16 +594,47 @@ Proof. intros w k b os h bc bu t1 t2 p w' p' v g wr. exact (clock_ahead_env_worl
 Lemma clock_ahead_tikv : clock_ahead_env_statement ETikv.
 Proof. intros w k b os h bc bu t1 t2 p w' p' v g wr. exact (clock_ahead_env_world ETikv w k b os h bc bu t1 t2 p w' p' v g wr ltac:(discriminate)). Qed.
 
-Lemma safe_except_F1 (e : engine) d v :
-  WF d ->
-  ~ (e = EBadger /\ v < dmax d) ->
-  (e <> EBadger -> dmax d <= v) ->
-  Good d v /\ list_at d v = list_latest d.
+(* the complement of finding C15-F1 in engine terms: on every engine other than Badger the hand-over is
+   ahead under the rate hypothesis *)
+Lemma clock_ahead_env_all e : e <> EBadger -> clock_ahead_env_statement e.
 Proof.
-  intros W NF Henv.
-  assert (D : dmax d <= v).
-  { destruct e; try (apply Henv; discriminate). destruct (N.le_gt_cases (dmax d) v); [assumption|]. exfalso. apply NF. auto. }
-  exact (conj (proj1 (safe_if_ahead d v W D)) (proj1 (proj2 (safe_if_ahead d v W D)))).
+  intros He w k b os h bc bu t1 t2 p w' p' v g wr.
+  exact (clock_ahead_env_world e w k b os h bc bu t1 t2 p w' p' v g wr He).
+Qed.
+
+(* later reads, and the headers of refused requests *)
+Lemma reads_see_latest d v os :
+  WF d -> dmax d <= v ->
+  let '(d', n', _) := run_ops d v os in list_at d' n' = list_latest d'.
+Proof.
+  intros W D. assert (G : Good d v) by (apply good_split; auto).
+  pose proof (run_ops_good os d v G) as H. destruct (run_ops d v os) as [[d' n'] rs]. destruct H as [G' _].
+  apply good_split in G' as [_ D']. apply list_at_latest. exact D'.
+Qed.
+
+Lemma cond_header_ge kr rev : rev <= cond_header kr rev.
+Proof. unfold cond_header. destruct (get_latest kr) as [[v m]|]; lia. Qed.
+
+Lemma refused_header_above d n o :
+  Good d n -> h_class (d_res (do_op d n o)) = HCond -> dmax d < h_rev (d_res (do_op d n o)).
+Proof.
+  intros G. apply good_split in G as [_ D].
+  destruct o as [k v|k v prev|k prev]; cbn [do_op].
+  - destruct (create_at d k v (n + 1)) as [d' ok]. destruct ok; cbn; [discriminate|intros _; lia].
+  - destruct prev as [|pp].
+    + destruct (create_at d k v (n + 1)) as [d' ok]. destruct ok; cbn; [discriminate|].
+      intros _. pose proof (cond_header_ge (dget d k) (n + 1)). lia.
+    + destruct (n + 1 <? N.pos pp); [cbn; discriminate|].
+      destruct (k_idx (dget d k)) as [[r0 [|]]|]; cbn;
+        try (intros _; pose proof (cond_header_ge (dget d k) (n + 1)); lia).
+      destruct (r0 =? N.pos pp); cbn; [discriminate|].
+      intros _. pose proof (cond_header_ge (dget d k) (n + 1)). lia.
+  - destruct (get_latest (dget d k)) as [[val modr]|]; [|cbn; discriminate].
+    destruct ((0 <? prev) && (n + 1 <? prev)); [cbn; discriminate|].
+    destruct ((0 <? prev) && negb (prev =? modr)); [cbn; intros _; lia|].
+    destruct (n + 1 <=? modr); [cbn; discriminate|].
+    destruct (k_idx (dget d k)) as [[r0 [|]]|]; cbn; try (intros _; lia).
+    destruct (r0 =? modr); cbn; [discriminate|intros _; lia].
 Qed.
 
 (* ---------- OnStartedLeading: the leader flag is raised only after the base is installed ---------- *)
